@@ -416,7 +416,24 @@ func genCase(t *rapid.T) (Case, string) {
 	var c Case
 	c.World = rapid.SampledFrom([]string{"grid", "grid", "lonlat", "lonlat", "hostile"}).Draw(t, "world")
 	g, class := genGeometry(t, c.World)
-	c.G = gG(g)
+	switch k := rapid.IntRange(0, 199).Draw(t, "recipe"); { // (rapid favours the ends of a range: classes sit in the middle)
+	case k >= 60 && k < 76:
+		// members that share memory with each other
+		r := drawAlias(t)
+		c.Alias = &r
+		c.World = "grid"
+		g, class = c.geometry(), "aliased-members"
+	case k == 131:
+		// a rare large structured value (the big rungs are enumerated by TestEnumLarge)
+		l := ladder(515)
+		r := LargeRecipe{Shape: rapid.SampledFrom(largeShapes).Draw(t, "lshape"), N: l[rapid.IntRange(0, len(l)-1).Draw(t, "ln2")], Pos: rapid.IntRange(0, 2).Draw(t, "lpos")}
+		c.Large = &r
+		c.World = "lonlat"
+		g, class = c.geometry(), "large"
+	}
+	if c.Large == nil {
+		c.G = gG(g)
+	}
 	switch rapid.IntRange(0, 9).Draw(t, "hkind") {
 	case 0, 1, 2:
 		c.H = gG(deepCopy(g))
@@ -458,7 +475,13 @@ func nonTrivial(g orb.Geometry) bool {
 }
 
 func classify(c Case, class string) {
-	g := c.G.V
+	g := c.geometry()
+	if c.Large != nil {
+		stats.Class("source:" + class)
+		stats.Class("large:" + c.Large.Shape)
+		stats.NonTrivial(gen.JSON(c.Large))
+		return
+	}
 	stats.Class("source:" + class)
 	stats.Class("world:" + c.World)
 	if hasSlice(g) {
